@@ -318,7 +318,8 @@ class _FakeVersionClient:
     """scripted list_object_versions: newest-first listing, given page sizes"""
 
     def __init__(self, times, pages):
-        self.vers = [{"VersionId": f"v{i}", "LastModified": t, "Size": 1, "Key": "k"} for i, t in enumerate(times)]
+        # (entity tags as S3 reports them: byte-identical uploads share one -- here versions 0 and 2, and 1 and 3)
+        self.vers = [{"VersionId": f"v{i}", "LastModified": t, "Size": 1, "Key": "k", "ETag": f'"etag{i % 2 if i < 4 else i}"'} for i, t in enumerate(times)]
         self.pages = list(pages) or [1000]
         self.n_calls = 0
 
@@ -442,10 +443,13 @@ def aggregate_replay(keys, estimator="nonparametric", alpha=0.9):
     labellings = [
         {"c1": "c1", "c2": "c2", "c3": "c3", "c4": "c4", "c9": "c9", "d1": "d1", "d2": "d2", "d3": "d3", "d9": "d9"},
         {"c1": "10", "c2": "9", "c3": "2", "c4": "100", "c9": "31", "d1": "12", "d2": "3", "d3": "1", "d9": "20"},
+        # one state code is a PREFIX of the other: the order of the key tuples differs from the order of the "_"-joined keys
+        # ("A" < "AB" but "AB_x" < "A_y" because "_" sorts after the letters)
+        {"c1": "c1", "c2": "c2", "c3": "c3", "c4": "c4", "c9": "c9", "d1": "d1", "d2": "d2", "d3": "d3", "d9": "d9", "AA": "A", "BB": "AB"},
     ]
     for lab in labellings:
         def unit(i, st, cty, cls, dist, res, rep, pred=None, lo=None, up=None, cat="expected"):
-            return {"postal_code": st, "county_fips": lab[cty], "county_classification": cls, "district": lab[dist], "geographic_unit_fips": f"u{i}", f"results_{E}": res, "reporting": rep, f"pred_{E}": res if pred is None else pred, lo_s: res if lo is None else lo, up_s: res if up is None else up, "unit_category": cat}
+            return {"postal_code": lab.get(st, st), "county_fips": lab[cty], "county_classification": cls, "district": lab[dist], "geographic_unit_fips": f"u{i}", f"results_{E}": res, "reporting": rep, f"pred_{E}": res if pred is None else pred, lo_s: res if lo is None else lo, up_s: res if up is None else up, "unit_category": cat}
 
         # (rows listed so that groups FIRST APPEAR in an order that is not their sorted key order)
         rep = pd.DataFrame([unit(3, "BB", "c3", "urban", "d2", 70, 1), unit(2, "AA", "c1", "rural", "d1", 50, 1), unit(1, "AA", "c1", "urban", "d1", 100, 1)])
@@ -852,7 +856,7 @@ def featurizer_battery_replay(fes, params, features, states=()):
     LV = {"fe1": ["a", "b", "c"], "fe2": ["x", "y"]}
     rng = np.random.default_rng(3)
     out = {"exc": None, "ok": True, "failures": [], "evaluated": 0}
-    n = 4
+    n = 5  # (5 units: with 2 fitting rows the 3 outstanding rows can repeat an index label among themselves)
     fixed = {fe: (params[fe] if params else "all") for fe in fes} if params else list(fes)
     for n_fit in range(1, n):
         for lv1 in itertools.product(LV[fes[0]] if fes else ["-"], repeat=n):
@@ -866,15 +870,22 @@ def featurizer_battery_replay(fes, params, features, states=()):
                     df.loc[n_fit - 1, "unit_category"] = "unexpected"
                 for f in features:
                     df[f] = rng.normal(size=n)
-                out["evaluated"] += 1
-                try:
-                    bad = featurizer_clauses(df, n_fit, list(features), fixed, states_sep=states)
-                except Exception as e:  # noqa
-                    bad = {"clause": "no failure", "exc": f"{type(e).__name__}: {e}"}
-                if bad:
-                    out["ok"] = False
-                    if len(out["failures"]) < 3:
-                        out["failures"].append({"levels": list(lv1), "n_fit": n_fit, "unexpected_in_fit": unexpected_in_fit, **{k: (v if isinstance(v, (str, int, float, list, bool)) else str(v)) for k, v in bad.items()}})
+                # twice: with a fresh RangeIndex, and with the index labels the models produce -- pd.concat of the
+                # reporting and the outstanding frame, each numbered from 0, so labels REPEAT across the two parts
+                # (and, as when unexpected units are appended as a third part, labels repeat WITHIN the outstanding rows)
+                for labels in (None, list(range(n_fit)) + list(range(n - n_fit)), list(range(n_fit)) + [i % 2 for i in range(n - n_fit)]):
+                    dfl = df.copy()
+                    if labels is not None:
+                        dfl.index = labels
+                    out["evaluated"] += 1
+                    try:
+                        bad = featurizer_clauses(dfl, n_fit, list(features), fixed, states_sep=states)
+                    except Exception as e:  # noqa
+                        bad = {"clause": "no failure", "exc": f"{type(e).__name__}: {e}"}
+                    if bad:
+                        out["ok"] = False
+                        if len(out["failures"]) < 3:
+                            out["failures"].append({"levels": list(lv1), "n_fit": n_fit, "unexpected_in_fit": unexpected_in_fit, "repeated_index_labels": labels is not None, **{k: (v if isinstance(v, (str, int, float, list, bool)) else str(v)) for k, v in bad.items()}})
     return out
 
 
@@ -1270,7 +1281,10 @@ def get_downloads_replay(n=5, sample=2):
         def download(self, bucket, key, fileobj, extra_args=None, subscribers=None):
             vid = (extra_args or {}).get("VersionId")
             self.requested.append(vid)
-            fileobj.write(f"geographic_unit_fips,dem,gop,total\n{vid},1,2,3\n".encode())
+            # byte-identical bodies for the versions that share an entity tag (an unchanged file uploaded again)
+            i = int(vid[1:])
+            body = f"b{i % 2}" if i < 4 else f"b{i}"
+            fileobj.write(f"geographic_unit_fips,dem,gop,total\n{body},1,2,3\n".encode())
             return Future(vid in self.fail_ids)
 
     T0 = datetime(2024, 11, 5, 20, 0, tzinfo=timezone.utc)
@@ -1290,7 +1304,8 @@ def get_downloads_replay(n=5, sample=2):
                 out["failures"].append({"failing": list(fs), "exc": f"{type(e).__name__}: {e}"})
                 continue
             good = [i for i in chosen if i not in fs]
-            ok = u.manager.requested == [f"v{i}" for i in chosen] and df is not None and list(df["geographic_unit_fips"]) == [f"v{i}" for i in good]
+            body_of = lambda i: f"b{i % 2}" if i < 4 else f"b{i}"  # noqa: E731
+            ok = u.manager.requested == [f"v{i}" for i in chosen] and df is not None and list(df["geographic_unit_fips"]) == [body_of(i) for i in good]
             if ok:
                 for i, ts in zip(good, df["last_modified"]):
                     ok = ok and ts == pd.to_datetime(times[i]).astimezone(tz=tz.gettz("America/New_York"))
@@ -1675,7 +1690,9 @@ def bootstrap_counted_margin_replay(keys=("postal_code", "county_classification"
     common = lambda n: {"postal_code": ["AA"] * n, "district": ["d1"] * n}  # noqa: E731
     rep = pd.DataFrame({**common(2), "county_fips": ["c1", "c2"], "county_classification": ["urban", "rural"], "geographic_unit_fips": ["a1", "a2"], "baseline_weights": [1000.0, 800.0], "results_normalized_margin": [0.1, -0.2], "turnout_factor": [1.1, 0.9], "results_margin": [110.0, -144.0], "pred_margin": [110.0, -144.0], "results_weights": [1100.0, 720.0], "reporting": 1})
     non = pd.DataFrame({**common(2), "county_fips": ["c1", "c2"], "county_classification": ["urban", "rural"], "geographic_unit_fips": ["n1", "n2"], "baseline_weights": [400.0, 500.0], "results_weights": [140.0, 50.0], "results_margin": [40.0, 5.0], "pred_margin": [30.0, -60.0], "reporting": 0})
-    unx = pd.DataFrame({**common(2), "county_fips": ["c1", "c2"], "county_classification": ["urban", np.nan], "geographic_unit_fips": ["x1", "x2"], "results_weights": [70.0, 30.0], "results_margin": [10.0, -6.0], "pred_margin": [10.0, -6.0], "reporting": [0, 0]})
+    # (x3: a group of its own -- state ZZ / county c9 / district d9 -- that consists of ONE unexpected unit with no votes at
+    # all: predicted turnout exactly 0; its counted and predicted margin must come out as 0, not as a missing value)
+    unx = pd.DataFrame({"postal_code": ["AA", "AA", "ZZ"], "district": ["d1", "d1", "d9"], "county_fips": ["c1", "c2", "c9"], "county_classification": ["urban", np.nan, np.nan], "geographic_unit_fips": ["x1", "x2", "x3"], "results_weights": [70.0, 30.0, 0.0], "results_margin": [10.0, -6.0, 0.0], "pred_margin": [10.0, -6.0, 0.0], "reporting": [0, 0, 0]})
     for f in (rep, non, unx):
         for c in ("baseline_dem", "baseline_gop", "baseline_turnout"):
             f[c] = 1.0
@@ -1699,7 +1716,7 @@ def bootstrap_counted_margin_replay(keys=("postal_code", "county_classification"
             den = sum(zrep[u] for u in r.geographic_unit_fips) + sum(znon[u] for u in n_.geographic_unit_fips) + float(x.results_weights.sum())
             num = float(r.results_margin.sum() + n_.results_margin.sum() + x.results_margin.sum())
             want = 0.0 if den == 0 else num / den
-            if abs(float(row["pred_turnout"]) - den) > 1e-6 or abs(float(row["results_margin"]) - want) > 1e-9:
+            if not (abs(float(row["pred_turnout"]) - den) <= 1e-6 and abs(float(row["results_margin"]) - want) <= 1e-9 and np.isfinite(float(row["pred_margin"]))):
                 out["failures"].append({"group": [str(row[k]) for k in keys], "pred_turnout": float(row["pred_turnout"]), "turnout_of_attributable_units": den, "results_margin": float(row["results_margin"]), "want": want})
         out["groups"] = int(len(est))
         out["ok"] = not out["failures"] and len(est) > 0
@@ -2129,6 +2146,167 @@ def duplicate_units_replay():
             out["rejected_with"] = str(e)[:120]
         except Exception as e:  # noqa
             out["problems"].append({"what": "rejected, but not with the client error", "exc": f"{type(e).__name__}: {e}"[:200]})
+        out["ok"] = not out["problems"]
+    except Exception as e:  # noqa
+        out["exc"] = f"{type(e).__name__}: {e}"
+        out["ok"] = False
+    return out
+
+
+def versioned_histories_replay():
+    """REAL VersionedDataHandler.compute_versioned_margin_estimate on a frame holding SEVERAL units whose versions are
+    interleaved, with a last_modified column and a missing cell: (u1) an erroneous update that is reverted -- A, B, A, A:
+    turnout goes down -> irregular: only missing corrections, error type recorded, 101 rows; (u2) the expected-vote
+    percentage re-scaled and re-scaled back -- its latest percent is 50 -> exactly the percents 0..50; (u3) consecutive
+    identical versions -> regular, percents 0..100, margins within [-1, 1]"""
+    from elexmodel.handlers.data.VersionedData import VersionedDataHandler
+
+    def rows(uid, hist):
+        out = []
+        for k, (d, g, t, pev) in enumerate(hist):
+            w = d + g
+            out.append({"geographic_unit_fips": uid, "results_dem": float(d), "results_gop": float(g), "results_weights": float(w), "results_turnout": float(t), "percent_expected_vote": float(pev), "results_normalized_margin": (d - g) / w if w else 0.0, "last_modified": pd.Timestamp("2024-11-05 20:00") + pd.Timedelta(minutes=7 * k)})
+        return out
+
+    u1 = rows("u1", [(600, 400, 1000, 20), (3000, 2000, 5000, 100), (600, 400, 1000, 20), (600, 400, 1000, 20)])
+    u2 = rows("u2", [(500, 300, 800, 40), (600, 400, 1000, 50), (600, 400, 1000, 62), (600, 400, 1000, 50)])
+    u3 = rows("u3", [(100, 100, 200, 10), (100, 100, 200, 10), (400, 300, 700, 40), (900, 800, 1700, 100), (900, 800, 1700, 100)])
+    inter = []
+    for i in range(5):
+        for u in (u3, u1, u2):
+            if i < len(u):
+                inter.append(u[i])
+    df = pd.DataFrame(inter)
+    df.loc[df.index[2], "results_gop"] = df.loc[df.index[2], "results_gop"]  # (keep dtype float)
+    out = {"exc": None, "problems": []}
+    try:
+        h = VersionedDataHandler.__new__(VersionedDataHandler)
+        with warnings.catch_warnings():
+            warnings.simplefilter("ignore")
+            res = h.compute_versioned_margin_estimate(df.copy())
+        r1, r2, r3 = (res[res.geographic_unit_fips == u] for u in ("u1", "u2", "u3"))
+        if not (len(r1) == 101 and r1.est_correction.isna().all() and r1.est_margin.isna().all() and set(map(str, r1.error_type)) != {"none"}):
+            out["problems"].append({"unit": "u1", "what": "a history whose turnout goes down (update reverted) was not discarded", "rows": int(len(r1)), "error_types": sorted(set(map(str, r1.error_type))), "missing_corrections": int(r1.est_correction.isna().sum())})
+        p2 = sorted(int(x) for x in r2.percent_expected_vote)
+        if not (set(map(str, r2.error_type)) == {"none"} and p2 == list(range(0, 51))):
+            out["problems"].append({"unit": "u2", "what": "percents produced are not 0..latest percent (50)", "first_last": [p2[0], p2[-1]] if p2 else None, "error_types": sorted(set(map(str, r2.error_type)))})
+        p3 = sorted(int(x) for x in r3.percent_expected_vote)
+        if not (set(map(str, r3.error_type)) == {"none"} and p3 == list(range(0, 101)) and (r3.est_margin.abs() <= 1 + 1e-12).all()):
+            out["problems"].append({"unit": "u3", "what": "a regular history with repeated consecutive versions is not interpolated for 0..100 within [-1, 1]", "first_last": [p3[0], p3[-1]] if p3 else None})
+        out["ok"] = not out["problems"]
+    except Exception as e:  # noqa
+        import traceback
+
+        out["exc"] = f"{type(e).__name__}: {e}"
+        out["trace"] = traceback.format_exc()[-500:]
+        out["ok"] = False
+    return out
+
+
+def aggregate_independence_replay(pi_method="gaussian"):
+    """REAL client: the table of one aggregate level must be the same whether that level is requested alone or together
+    with other aggregate levels, in either order"""
+    base = synthetic(90, seed=4)
+    cur = feed(base, [100] * 55 + [30] * 35)
+    out = {"exc": None, "differences": []}
+    try:
+        runs = {}
+        levels = ("postal_code", "county_fips", "county_classification")
+        for name, aggs in (("postal_code", ("postal_code",)), ("county_fips", ("county_fips",)), ("county_classification", ("county_classification",)), ("all", levels), ("all_reversed", tuple(reversed(levels)))):
+            with warnings.catch_warnings():
+                warnings.simplefilter("ignore")
+                _, r = run_client(cur, base, estimands=("turnout",), pi_method=pi_method, prediction_intervals=(0.7, 0.9), aggregates=aggs)
+            runs[name] = r
+        tabs = {"postal_code": "state_data", "county_fips": "county_data", "county_classification": "classification_data"}
+        for lvl, tab in tabs.items():
+            a = runs[lvl][tab]
+            for together in ("all", "all_reversed"):
+                b = runs[together][tab]
+                for col in a.columns:
+                    if col in b and a[col].dtype.kind in "fiu" and not np.array_equal(np.asarray(a[col]), np.asarray(b[col])):
+                        i = int(np.argmax(np.asarray(a[col]) != np.asarray(b[col])))
+                        out["differences"].append({"level": lvl, "requested_with": together, "column": col, "alone": float(np.asarray(a[col])[i]), "together": float(np.asarray(b[col])[i])})
+                        break
+        out["differences"] = out["differences"][:4]
+        out["ok"] = not out["differences"]
+    except Exception as e:  # noqa
+        out["exc"] = f"{type(e).__name__}: {e}"
+        out["ok"] = False
+    return out
+
+
+def inputs_not_modified_replay(estimands=("margin",), policy="drop"):
+    """REAL CombinedDataHandler.__init__: the preprocessed table and the live feed passed in by the caller must come back
+    with the same columns and the same cells; and a second handler built from the SAME feed object, to which the raw row of a
+    unit outside the baseline was appended in between, must give that unit its own derived quantities (not missing values)"""
+    from elexmodel.handlers.data.CombinedData import CombinedDataHandler
+    from elexmodel.handlers.data.Estimandizer import Estimandizer
+
+    base = synthetic(12, seed=2)
+    cur = feed(base, [100] * 8 + [30] * 4)
+    out = {"exc": None, "problems": []}
+    try:
+        with warnings.catch_warnings():
+            warnings.simplefilter("ignore")
+            pre = Estimandizer().add_estimand_baselines(base.copy(), {e: e for e in estimands}, False)
+            pre0, cur0 = pre.copy(deep=True), cur.copy(deep=True)
+            CombinedDataHandler(pre, cur, list(estimands), "county", handle_unreporting=policy)
+        for name, a, b in (("preprocessed data", pre0, pre), ("live feed", cur0, cur)):
+            if list(a.columns) != list(b.columns):
+                out["problems"].append({"table": name, "what": "the handler changed the columns of a table that belongs to its caller", "before": list(a.columns), "after": list(b.columns)})
+            elif not a.equals(b):
+                out["problems"].append({"table": name, "what": "the handler changed cells of a table that belongs to its caller"})
+        # the poller's second run on the same feed object, with one more (unexpected) unit
+        row = {c: cur0[c].iloc[0] for c in cur0.columns}
+        row.update({"geographic_unit_fips": "ZZ99_9999", "results_dem": 3100.0, "results_gop": 1900.0, "results_turnout": 5100.0, "percent_expected_vote": 100})
+        cur2 = pd.concat([cur, pd.DataFrame([row])], ignore_index=True)
+        with warnings.catch_warnings():
+            warnings.simplefilter("ignore")
+            h2 = CombinedDataHandler(pre0.copy(), cur2, list(estimands), "county", handle_unreporting=policy)
+        new = h2.current_data[h2.current_data.geographic_unit_fips == "ZZ99_9999"]
+        if "margin" in estimands and not (len(new) == 1 and float(new.results_margin.iloc[0]) == 1200.0 and float(new.results_weights.iloc[0]) == 5000.0):
+            out["problems"].append({"what": "on the second run the appended unit does not carry its own margin / two-party votes", "results_margin": None if not len(new) else float(new.results_margin.iloc[0]), "results_weights": None if not len(new) else float(new.results_weights.iloc[0])})
+        out["ok"] = not out["problems"]
+    except Exception as e:  # noqa
+        import traceback
+
+        out["exc"] = f"{type(e).__name__}: {e}"
+        out["trace"] = traceback.format_exc()[-400:]
+        out["ok"] = False
+    return out
+
+
+def final_tables_replay():
+    """REAL ModelResultsHandler (add_unit_predictions / add_unit_intervals / add_agg_predictions / process_final_results) for
+    the margin estimand (aggregate counted votes and predictions are FRACTIONS) and for a vote count, two states: every cell
+    of the returned state table must be the value handed in"""
+    from elexmodel.handlers.data.ModelResults import ModelResultsHandler
+    from elexmodel.models.ConformalElectionModel import PredictionIntervals
+
+    out = {"exc": None, "problems": []}
+    try:
+        for est_name, vals in (("margin", {"pred": [0.0275, -0.3125], "results": [0.0125, -0.4375], "lo": [-0.0625, -0.5], "up": [0.125, -0.25]}), ("turnout", {"pred": [5100.0, 770.0], "results": [4100.0, 70.0], "lo": [4800.0, 600.0], "up": [5600.0, 900.0]})):
+            rep = pd.DataFrame({"postal_code": ["AA", "BB"], "geographic_unit_fips": ["r1", "r2"], f"results_{est_name}": [100.0, 50.0], "reporting": 1, "unit_category": "expected"})
+            non = pd.DataFrame({"postal_code": ["AA", "BB"], "geographic_unit_fips": ["n1", "n2"], f"results_{est_name}": [10.0, 0.0], "reporting": 0, "unit_category": "expected"})
+            unx = pd.DataFrame({"postal_code": ["AA"], "geographic_unit_fips": ["x1"], f"results_{est_name}": [7.0], "reporting": [0], "unit_category": ["unexpected"]})
+            for f_ in (rep, non, unx):
+                f_["results_weights"] = 100.0
+            mr = ModelResultsHandler(["postal_code", "unit"], [0.9], rep, non, unx)
+            mr.add_unit_predictions(est_name, np.array([40.0, 90.0]))
+            if est_name == "margin":
+                mr.add_unit_turnout_predictions(np.array([140.0, 190.0]))
+            mr.add_unit_intervals(est_name, {0.9: PredictionIntervals(np.array([30.0, 60.0]), np.array([50.0, 150.0]))})
+            agg = pd.DataFrame({"postal_code": ["AA", "BB"], f"pred_{est_name}": vals["pred"], f"results_{est_name}": vals["results"], "reporting": [1.0, 1.0]})
+            mr.add_agg_predictions(est_name, "postal_code", agg, {0.9: PredictionIntervals(pd.Series(vals["lo"]), pd.Series(vals["up"]))})
+            mr.process_final_results()
+            sd = mr.final_results["state_data"].set_index("postal_code")
+            for i, st in enumerate(("AA", "BB")):
+                for col, key in ((f"pred_{est_name}", "pred"), (f"results_{est_name}", "results"), (f"lower_0.9_{est_name}", "lo"), (f"upper_0.9_{est_name}", "up")):
+                    if float(sd.loc[st, col]) != vals[key][i]:
+                        out["problems"].append({"estimand": est_name, "state": st, "column": col, "handed_in": vals[key][i], "returned": float(sd.loc[st, col])})
+                if float(sd.loc[st, "reporting"]) != 1.0:
+                    out["problems"].append({"estimand": est_name, "state": st, "column": "reporting", "returned": float(sd.loc[st, "reporting"])})
+        out["problems"] = out["problems"][:4]
         out["ok"] = not out["problems"]
     except Exception as e:  # noqa
         out["exc"] = f"{type(e).__name__}: {e}"
